@@ -49,20 +49,20 @@ def run(ctx):
     # 1. the strict design round-trips every model and isolates tags; the as-built deviations do not
     env = {"MAXK3": "0"}
     r = ctx.tlc("MC_SdkModel", cfg_text=mc_cfg("{}", "RoundTrip StepsAreOutcome OneContent TagIsolation"), env=env, name="mc-strict",
-                timeout=3600, coverage=thorough)
+                timeout=3600, coverage=thorough, workers=1)
     if not r.ok:
         raise vlib.Inconclusive("strict SdkModel spec does not satisfy its own properties: %s %s" % (r.violated, r.error))
     ctx.extra["mc_strict"] = r.summary()
     if thorough:
         if r.coverage_zero:
             ctx.extra["coverage_zero"] = r.coverage_zero[:10]
-        r3 = ctx.tlc("MC_SdkModel", cfg_text=mc_cfg("{}", "RoundTrip OneContent"), env={"MAXK3": "1"}, name="mc-strict-k3", timeout=7200)
+        r3 = ctx.tlc("MC_SdkModel", cfg_text=mc_cfg("{}", "RoundTrip OneContent"), env={"MAXK3": "1"}, name="mc-strict-k3", timeout=7200, workers=1)
         if not r3.ok:
             raise vlib.Inconclusive("strict SdkModel spec (4-field models) does not satisfy its own properties: %s %s" % (r3.violated, r3.error))
         ctx.extra["mc_strict_k3"] = r3.summary()
     for dev, inv in (('{"SubstringTags"}', "TagIsolation"), ('{"SubstringTags"}', "RoundTrip"), ('{"NilBodyField"}', "RoundTrip")):
         rx = ctx.tlc("MC_SdkModel", cfg_text=mc_cfg(dev, inv, "WitnessSpec"), env=env, name="mc-asbuilt-%s-%s" % (inv, dev.strip('{}"')),
-                     count_states=False, timeout=3600)
+                     count_states=False, timeout=3600, workers=1)
         if rx.ok or rx.violated != inv:
             raise vlib.Inconclusive("as-built SdkModel spec %s does not violate %s: %s %s" % (dev, inv, rx.violated, rx.error))
     ctx.extra["asbuilt_witnesses"] = ["SubstringTags violates TagIsolation", "SubstringTags violates RoundTrip", "NilBodyField violates RoundTrip"]
@@ -80,16 +80,26 @@ def run(ctx):
         if c["strict"] != c["expected"]:
             raise vlib.Inconclusive("the strict spec's outcome differs from the expectation for %s" % json.dumps(c["fields"]))
     ctx.extra["generated_models"] = len(cases)
+    ctx.extra["value_variants_per_model"] = 3
     if ctx.replay:
         rp = json.load(open(ctx.replay))["replay"]
         want = json.dumps([rp["kind"], rp["fields"]], sort_keys=True)
         cases = [c for c in cases if json.dumps([c["kind"], c["fields"]], sort_keys=True) == want]
         if not cases:
             raise vlib.Inconclusive("the replayed model is not in the generated space")
-    for i, c in enumerate(cases):
-        c["id"] = i + 1
+    # every abstract case is concretised three times: "a non-zero value" of a type is an ordinary value (variant 0)
+    # or a boundary value (1: negative int / pre-epoch time / multi-byte string with NUL / slice holding "",
+    # 2: extreme int / the epoch itself / 3000-byte string / 300-element slice); the expectation is the same
+    abstract = cases
+    cases = []
+    for c in abstract:
+        for variant in (0, 1, 2):
+            d = dict(c)
+            d["variant"] = variant
+            d["id"] = len(cases) + 1
+            cases.append(d)
     cf = os.path.join(ctx.work, "cases.json")
-    json.dump([dict(id=c["id"], kind=c["kind"], fields=c["fields"]) for c in cases], open(cf, "w"))
+    json.dump([dict(id=c["id"], kind=c["kind"], variant=c["variant"], fields=c["fields"]) for c in cases], open(cf, "w"))
     rf = os.path.join(ctx.work, "results.ndjson")
     ctx.run_driver(binary, ["run", cf, rf], timeout=3600)
     res = [json.loads(l) for l in open(rf)]
@@ -97,12 +107,12 @@ def run(ctx):
         raise vlib.Inconclusive("driver returned %d results for %d cases" % (len(res), len(cases)))
     byid = {c["id"]: c for c in cases}
     counts = dict(held=0, substr=0, nilbody=0, both=0, unexplained=0)
-    reported = set()
+    reported = {}
     for x in res:
         c = byid[x["id"]]
         obs = dict(save=x["save"], read=x["read"], out=x["out"])
         heads = [f["head"] for f in c["fields"]]
-        ctx.count_case([c["kind"], c["fields"]], nontrivial=len(c["fields"]) >= 3 or any(h not in ("key", "name", "count", "tags", "when") for h in heads))
+        ctx.count_case([c["kind"], c["variant"], c["fields"]], nontrivial=len(c["fields"]) >= 3 or any(h not in ("key", "name", "count", "tags", "when") for h in heads))
         if obs == c["expected"]:
             counts["held"] += 1
             continue
@@ -111,19 +121,21 @@ def run(ctx):
             if obs == c[name] and c[name] != c["expected"]:
                 expl = (name, fids)
                 break
-        what = "model %s %s: saved %s, read back save=%s read=%s out=%s (%s); expected %s" % (
-            c["kind"], json.dumps([[f["head"] + (",omitempty" if f["om"] else ""), f["ty"]] for f in c["fields"]]),
+        what = "model %s %s (value variant %d): saved %s, read back save=%s read=%s out=%s (%s); expected %s" % (
+            c["kind"], json.dumps([[f["head"] + (",omitempty" if f["om"] else ""), f["ty"]] for f in c["fields"]]), c["variant"],
             json.dumps([f["val"] for f in c["fields"]]), x["save"], x["read"], json.dumps(x["out"]), x["detail"][:120], json.dumps(c["expected"]))
-        rep = dict(kind=c["kind"], fields=c["fields"], observed=obs, detail=x["detail"])
+        rep = dict(kind=c["kind"], fields=c["fields"], variant=c["variant"], observed=obs, detail=x["detail"])
         if expl is None:
             counts["unexplained"] += 1
-            ctx.deviation(None, what, rep)
+            if counts["unexplained"] <= 5:          # every one is a violation; a handful of replay files is enough
+                ctx.deviation(None, what, rep)
             continue
         counts[expl[0]] += 1
         for fid in expl[1]:
-            if (fid, expl[0]) in reported and ctx.is_known(fid):
+            n = reported.get((fid, expl[0]), 0)
+            reported[(fid, expl[0])] = n + 1
+            if n >= (1 if ctx.is_known(fid) else 3):
                 continue
-            reported.add((fid, expl[0]))
             ctx.deviation(fid, what, rep)
     ctx.cov["traces_validated_against_impl"] += len(res)
     ctx.extra["cases_run"] = len(res)
@@ -147,7 +159,7 @@ def run(ctx):
             fs = json.loads(json.dumps(c["fields"]))
             n = len(fs)
             fs[-1]["val"] = "z" if fs[-1]["val"] != "z" else "v%d" % n
-            alt.append(dict(id=c["id"], kind=c["kind"], fields=fs))
+            alt.append(dict(id=c["id"], kind=c["kind"], variant=c["variant"], fields=fs))
         af = os.path.join(ctx.work, "selftest.json")
         json.dump(alt, open(af, "w"))
         arf = os.path.join(ctx.work, "selftest.ndjson")
@@ -160,6 +172,6 @@ def run(ctx):
         if same:
             raise vlib.Inconclusive("binding self-test failed: %d flipped cases still matched the original expectation" % len(same))
 
-    ctx.cov["rule"] = ("cases = models enumerated by TLC (tag heads x omitempty x type x zero/non-zero values), built with reflect.StructOf, saved and read through the real SDK; "
-                       "non-trivial = at least 2 non-key fields or a tag head that is reserved or contains a reserved word; distinct by (kind, fields)")
+    ctx.cov["rule"] = ("cases = models enumerated by TLC (tag heads x omitempty x type x zero/non-zero values), each concretised with 3 representatives of the non-zero values (ordinary, two boundary sets), built with reflect.StructOf, saved and read through the real SDK; "
+                       "non-trivial = at least 2 non-key fields or a tag head that is reserved or contains a reserved word; distinct by (kind, value variant, fields)")
     ctx.cov["exhaustive"] = True
